@@ -16,6 +16,13 @@ from harness import tlc, tlaval, scen
 from harness.common import main, MachineryError
 
 HOSTS = {'a': b'a.example', 'b': b'b.example'}
+# every other history runs against two origins that share the HOST and differ in the PORT only (seed C12d: reuse decided by host alone)
+ADDR = {False: {'a': (b'a.example', 80), 'b': (b'b.example', 80)}, True: {'a': (b'o.example', 8001), 'b': (b'o.example', 8002)}}
+
+
+def authority(o, ports):
+    h, p = ADDR[ports][o]
+    return h + (b':%d' % p if ports else b'')
 
 
 def generate(num, seed, nreq=3, polite=False):
@@ -51,10 +58,10 @@ def generate(num, seed, nreq=3, polite=False):
 
 
 # ---- roles ------------------------------------------------------------------------------------------
-def req_bytes(role, o, k, body):
+def req_bytes(role, o, k, body, ports=False):
     if role == 'forward':
-        target = b'http://' + HOSTS[o] + b'/r%d' % k
-        host = HOSTS[o]
+        target = b'http://' + authority(o, ports) + b'/r%d' % k
+        host = authority(o, ports)
     else:
         target = b'/%s/r%d' % (o.encode(), k)
         host = b'proxy.example'
@@ -86,12 +93,13 @@ def web_plugins(log):
     return [make('a'), make('b')]
 
 
-def reverse_plugin():
+def reverse_plugin(ports=False):
     from proxy.http.server import ReverseProxyBasePlugin
 
     class Rev(ReverseProxyBasePlugin):
         def routes(self):
-            return [(r'/a/', [b'http://a.example/ua']), (r'/b/', [b'http://b.example/ub'])]
+            return [(r'/a/', [b'http://' + authority('a', ports) + b'/ua']), (r'/b/', [b'http://' + authority('b', ports) + b'/ub'])]
+    Rev.__name__ = Rev.__qualname__ = 'Rev_ports' if ports else 'Rev'
     return Rev
 
 
@@ -149,7 +157,7 @@ class Origin:
         return False
 
 
-def execute(case, role, rnd, threaded=False):
+def execute(case, role, rnd, threaded=False, ports=False):
     log = []
     if role == 'forward':
         conv = scen.Conversation(args=[], threaded=threaded)
@@ -158,12 +166,12 @@ def execute(case, role, rnd, threaded=False):
     elif role == 'reverse-mixed':
         conv = scen.Conversation(args=['--enable-reverse-proxy'], flag_opts={'plugins': [reverse_mixed_plugin(log)]}, threaded=threaded)
     else:
-        conv = scen.Conversation(args=['--enable-reverse-proxy'], flag_opts={'plugins': [reverse_plugin()]}, threaded=threaded)
+        conv = scen.Conversation(args=['--enable-reverse-proxy'], flag_opts={'plugins': [reverse_plugin(ports)]}, threaded=threaded)
     origins = {'a': Origin('a'), 'b': Origin('b')}
 
     def on_accept(peer, host, port):
-        for o, h in HOSTS.items():
-            if host == h.decode():
+        for o, (h, p) in ADDR[ports].items():
+            if host == h.decode() and port == p:
                 origins[o].peers.append(peer)
     conv.sim.origin_setup = on_accept
     c = conv.client()
@@ -171,7 +179,7 @@ def execute(case, role, rnd, threaded=False):
     bodies = [rnd.random() < .4 for _ in script]
     units = []
     for k, o in enumerate(script):
-        raw = req_bytes(role, o, k + 1, bodies[k])
+        raw = req_bytes(role, o, k + 1, bodies[k], ports)
         if role.startswith('reverse'):
             raw = raw.replace(b'\r\n\r\n', b'\r\nX-K: %d\r\n\r\n' % (k + 1), 1)
         cut = rnd.randrange(1, len(raw))
@@ -255,10 +263,11 @@ def run(chk):
         for role, threaded in [(r_, False) for r_ in ('forward', 'web', 'reverse', 'reverse-mixed')] + \
                 ([(('forward', 'web', 'reverse', 'reverse-mixed')[(nc // 4) % 4], True)] if nc % 4 == 3 else []):
             # every fourth history once more with the connection handled as --threaded mode does (own selector, run() loop)
-            obs = execute(case, role, rnd, threaded)
+            ports = nc % 2 == 1 and role in ('forward', 'reverse')
+            obs = execute(case, role, rnd, threaded, ports)
             tid = len(traces) + 1
             traces.append({'id': tid, 'script': case['script'], 'got': obs['got'], 'inbox': obs['inbox'], 'ceof': obs['ceof']})
-            infos.append({'role': role, 'mode': 'threaded' if threaded else 'threadless', 'script': case['script'], 'schedule': [' '.join(s) for s in case['schedule']], 'packed': obs['packed'], 'overlap': obs['overlap'],
+            infos.append({'role': role, 'same_host_origins': ports, 'mode': 'threaded' if threaded else 'threadless', 'script': case['script'], 'schedule': [' '.join(s) for s in case['schedule']], 'packed': obs['packed'], 'overlap': obs['overlap'],
                           'bodies': obs['bodies'], 'alive': obs['alive'], 'loop_error': obs['loop_error']})
             if not obs['alive']:
                 chk.notes.append('executor loop died (%s, script %s): %s (reported under C05)' % (role, case['script'], obs['loop_error']))
@@ -279,6 +288,7 @@ def run(chk):
         chk.sample({'role': i['role'], 'script': i['script'], 'schedule': i['schedule'], 'client_got': t['got'], 'inbox': t['inbox']})
     chk.cov['roles'] = ['forward', 'web', 'reverse', 'reverse-mixed']
     chk.assume('each request is cut into two units at a seeded position; packings and origin timings come from the model',
+               'every other history of the forward and reverse roles runs against two origins sharing the host and differing in the port only',
                'the web role uses two route plugins (one per route); the reverse role one plugin with two static routes')
 
 
